@@ -125,14 +125,74 @@ def r2_typestate(rep, src, model):
 def r3_no_other_escape(rep, src, model):
     f = model.f
     alpha = model.alpha
-    # split(";", 1)[1] under a topline match
-    top = model.relang('topline')
-    semi = rx.regex_lang(r'[^\n]*;[^\n]*', 0, 'fullmatch', alpha=alpha)
-    w = top.intersect(model.universe).not_subset_witness(semi)
-    if w is not None:
-        rep.fail('C15.R3', f.site, 'split(";", 1)[1] is defined', 'topline matches %r which contains no ";": IndexError in the header branch' % w, where=f.where)
-    else:
-        rep.ok('C15.R3', f.site, 'split(";", 1)[1] is defined', 'every topline match contains ";"')
+    # every split of the current line whose result is indexed / unpacked: the number of separators the line must
+    # contain is compared with the language of the lines that reach the call (enclosing regex-match tests)
+    lv = model.linevar
+    n_split = 0
+    for c in walk_no_nested(model.fnode):
+        if not (isinstance(c, ast.Call) and isinstance(c.func, ast.Attribute) and c.func.attr in ('split', 'rsplit') and norm(c.func.value) == lv):
+            continue
+        if not (c.args and isinstance(c.args[0], ast.Constant) and isinstance(c.args[0].value, str) and len(c.args[0].value) == 1):
+            continue
+        sep = c.args[0].value
+        maxsplit = c.args[1].value if len(c.args) > 1 and isinstance(c.args[1], ast.Constant) else None
+        if len(c.args) > 1 and maxsplit is None:
+            raise AnalysisError('%s: maxsplit of %s is not a constant' % (f.site, norm(c)))
+        # language of the lines reaching the call
+        lang = model.universe
+        node = c
+        while getattr(node, '_parent', None) is not None:
+            par = node._parent
+            if isinstance(par, ast.If) and node is not par.test:
+                in_body = any(node is x for x in par.body)
+                sub = [(t_, l_) for t_, l_ in (model.cond(par.test, dict(state=None, old=None, nonempty=True, L=lang, effects=[], allow_empty=None))
+                                               if not any(isinstance(x, ast.Name) and x.id in ('state', 'old_state') for x in ast.walk(par.test)) else [])
+                       if t_ == in_body]
+                if sub:
+                    u = sub[0][1]
+                    for _t, l_ in sub[1:]:
+                        u = u.union(l_)
+                    lang = u
+            node = par
+        # requirement from the use of the result
+        par = c._parent
+        need = None      # (min separators, max separators or None)
+        what = norm(par)[:60] if isinstance(par, (ast.Subscript, ast.Assign)) else norm(c)
+        if isinstance(par, ast.Subscript) and par.value is c and isinstance(par.slice, ast.Constant) and isinstance(par.slice.value, int):
+            k = par.slice.value
+            k = k if k >= 0 else -k - 1
+            need = (k, None)
+            if maxsplit is not None and k > maxsplit:
+                rep.fail('C15.R3', f.site, what, 'index %d of a split limited to %d separators never exists: IndexError' % (par.slice.value, maxsplit),
+                         where='%s:%d' % (f.module.relpath, c.lineno))
+                continue
+        elif isinstance(par, ast.Assign) and par.value is c and isinstance(par.targets[0], (ast.Tuple, ast.List)):
+            n = len(par.targets[0].elts)
+            if maxsplit is None or n - 1 < maxsplit:
+                need = (n - 1, n - 1)
+            elif n - 1 == maxsplit:
+                need = (n - 1, None)
+            else:
+                rep.fail('C15.R3', f.site, what, 'a split limited to %d separators never yields %d parts: ValueError' % (maxsplit, n),
+                         where='%s:%d' % (f.module.relpath, c.lineno))
+                continue
+        else:
+            continue
+        n_split += 1
+        e = rx.literal(sep)
+        other = '[^%s\\n]' % (e if sep not in ']^\\-' else '\\' + sep)
+        pat = '%s*(?:%s%s*){%d,%s}' % (other, e, other, need[0], '' if need[1] is None else str(need[1]))
+        ok_lang = rx.regex_lang(pat, 0, 'fullmatch', alpha=alpha)
+        w = lang.not_subset_witness(ok_lang)
+        if w is not None:
+            exc = 'IndexError' if isinstance(par, ast.Subscript) else 'ValueError (unpacking)'
+            rep.fail('C15.R3', f.site, what, 'the line %r reaches %s, which needs %s %r: %s escapes instead of a warning / ChangelogParseError'
+                     % (w, norm(c), ('exactly %d' % need[0]) if need[0] == need[1] else ('at least %d' % need[0]), sep, exc),
+                     detail={'witness': w}, where='%s:%d' % (f.module.relpath, c.lineno))
+        else:
+            rep.ok('C15.R3', f.site, what, 'every line reaching the call has %s %r' % (('exactly %d' % need[0]) if need[0] == need[1] else ('at least %d' % need[0]), sep))
+    if n_split < 1:
+        raise AnalysisError('%s: no indexed/unpacked split of the line found (the header key=value part is cut from the line)' % f.site)
     # group indices exist and groups used unconditionally participate
     for n in walk_no_nested(f.node):
         if isinstance(n, ast.Call) and isinstance(n.func, ast.Attribute) and n.func.attr == 'group' and isinstance(n.func.value, ast.Name) \
